@@ -106,7 +106,7 @@ def decRec (r : Bytes) : Option (Rec × Bytes) :=
       match readNat tombW r2 with
       | none => none
       | some (t, r3) =>
-        if t = 1 then some (⟨s, k, true, []⟩, r3)
+        if t = tombMark then some (⟨s, k, true, []⟩, r3)
         else match readVar r3 with
           | none => none
           | some (v, r4) => some (⟨s, k, false, v⟩, r4)
